@@ -105,7 +105,7 @@ mod k {
         let se = src.as_el();
         let sa: Af = se.into();
         match dst {
-            Obj::E(e) => match which % 15 {
+            Obj::E(e) => match which % 16 {
                 0 => { *e += se; ("E += E", c.add(dm, sm)) }
                 1 => { *e += &se; ("E += &E", c.add(dm, sm)) }
                 2 => { *e += sa; ("E += A", c.add(dm, sm)) }
@@ -120,9 +120,10 @@ mod k {
                 11 => { *e = -*e; ("E = -E", c.neg(dm)) }
                 12 => { let copy = *e; *e += copy; ("E += itself", c.double(dm)) }
                 13 => { let copy = *e; *e -= &copy; ("E -= &itself", c.identity()) }
-                _ => { Zero::set_zero(e); ("Zero::set_zero(E)", c.identity()) }
+                14 => { Zero::set_zero(e); ("Zero::set_zero(E)", c.identity()) }
+                _ => { e.clone_from(&se); ("E.clone_from(&src)", sm.clone()) }
             },
-            Obj::A(a) => match which % 9 {
+            Obj::A(a) => match which % 10 {
                 0 => { *a += sa; ("A += A", c.add(dm, sm)) }
                 1 => { *a += &sa; ("A += &A", c.add(dm, sm)) }
                 2 => { *a -= sa; ("A -= A", c.sub(dm, sm)) }
@@ -131,7 +132,8 @@ mod k {
                 5 => { *a *= &lk; ("A *= &Fr", c.mul(k, dm)) }
                 6 => { *a = -*a; ("A = -A", c.neg(dm)) }
                 7 => { let copy = *a; *a += &copy; ("A += &itself", c.double(dm)) }
-                _ => { let copy = *a; *a -= copy; ("A -= itself", c.identity()) }
+                8 => { let copy = *a; *a -= copy; ("A -= itself", c.identity()) }
+                _ => { let mut v = vec![*a, *a]; v.clone_from_slice(&[sa, sa]); *a = v[1]; ("[A].clone_from_slice(src)", sm.clone()) }
             },
         }
     }
@@ -263,7 +265,7 @@ mod k {
             _ => ("copy", *src),
         }
     }
-    pub const N_MUTS: usize = 15;
+    pub const N_MUTS: usize = 17;
     pub fn mutate(ctx: &Ctx, which: usize, dst: &mut Obj, dm: &Pt, src: &Obj, sm: &Pt, k: &B) -> (&'static str, Pt) {
         use subtle::{Choice, ConditionallySelectable};
         let c = &ctx.c;
@@ -276,6 +278,8 @@ mod k {
             12 => { let mut other = se; El::conditional_swap(e, &mut other, Choice::from(1)); ("conditional_swap(E, src, 1)", sm.clone()) }
             13 => { let mut other = se; El::conditional_swap(&mut other, e, Choice::from(1)); ("conditional_swap(src, E, 1)", sm.clone()) }
             14 => { let mut other = se; El::conditional_swap(e, &mut other, Choice::from(0)); ("conditional_swap(E, src, 0)", dm.clone()) }
+            15 => { e.clone_from(&se); ("E.clone_from(&src)", sm.clone()) }
+            16 => { let mut v = vec![*e, *e]; v.clone_from_slice(&[se, se]); *e = v[0]; ("[E].clone_from_slice(src)", sm.clone()) }
             0 => { *e += se; ("E += E", c.add(dm, sm)) }
             1 => { *e += &se; ("E += &E", c.add(dm, sm)) }
             2 => { *e -= se; ("E -= E", c.sub(dm, sm)) }
